@@ -5,13 +5,13 @@ import json, os
 # id -> (technique, level text, design ref)   -- only properties whose rules are built and armed
 CLAIMED = {
  "C19": ("call-graph rule for recovery coverage, value flow of the limiter layering, threshold rules by edge-feasibility and per-iteration path counts, must-pass-through for restoring the limit",
-         "Structural bounds on hostile input decided on every path: recovery above every callback, limiter below textproto on every init, exact counting/threshold of lineLimitReader (every LF resets, independent of read boundaries), restoration after BDAT, 500+return on too-long lines, no line handed out while the limiter refuses, constant indexes within guarded lengths, regexp alternatives matching the callback's length assumptions, monotone error count and threshold of protocolError. Panic-freedom of the standard library is trusted; the compiler's bounds-check list is cross-reference only.",
+         "Structural bounds on hostile input decided on every path: recovery above every callback, limiter below textproto on every init, exact counting/threshold of lineLimitReader (every LF resets, independent of read boundaries), the count written by the limiter alone, restoration after BDAT, 500+return (no further read) on too-long lines, no line handed out while the limiter refuses, constant indexes within guarded lengths, regexp alternatives matching the callback's length assumptions, monotone error count and threshold of protocolError. Panic-freedom of the standard library is trusted; the compiler's bounds-check list is cross-reference only.",
          "DESIGN.md §3 C19"),
  "C20": ("thread roles x locksets over all field accesses (must-lockset dataflow with interprocedural entry locksets, frozen happens-before edges), lock-order graph, capture rule, path rules for Serve/Close/Shutdown",
          "Every (field, role, access, lockset) tuple of Conn/Server classified; unordered conflicting pairs are individual obligations (existing ones are listed known findings, new ones fail). Reports possible races; does not prove races occur nor deadlock freedom in general.",
          "DESIGN.md §3 C20"),
  "C14": ("interval-class abstract interpretation of the three encoders and of the UTF-8 decoder callback; regexp literals parsed from source constants; table agreement (pass-through set vs decoder specials/separators, escape width vs decoder acceptance); field/key pairing",
-         "Character-class level agreement of encoders and decoders decided exhaustively over all scalar values (both sides only compare with constants), plus client/server pairing of option fields and keys. The RRVS layout must keep date, time to the second and a numeric zone; the null AUTH identity pairing, the verbatim rendering of the command line and pointer freshness of option fields are decided. Equality of whole option structs and mailbox syntax are NOT decided.",
+         "Character-class level agreement of encoders and decoders decided exhaustively over all scalar values (both sides only compare with constants), plus client/server pairing of option fields and keys; every option that is set and offered is rendered on every path (all subsets), zero-valued options add nothing and cannot fail, the NOTIFY separator shape and the keying of the EHLO extension map are decided. The RRVS layout must keep date, time to the second and a numeric zone; the null AUTH identity pairing, the verbatim rendering of the command line and pointer freshness of option fields are decided. Equality of whole option structs and mailbox syntax are NOT decided.",
          "DESIGN.md §3 C14"),
  "C15": ("whitelist taint over the resolved program (leaf sources through phis/cells, sanitiser table), edge-feasibility for extension gates and validate-first, path counting of commands",
          "No unsanitised dynamic string can reach a client command line; validation failures and missing REQUIRETLS/SMTPUTF8 reach no write; one command per step; every parameter token gated by the matching EHLO keyword. The SASL mechanism name and non-CR/LF octets are outside.",
@@ -20,7 +20,7 @@ CLAIMED = {
          "Structural conditions of the client DATA path on every path; stuffing itself is net/textproto's (trusted) and the receiving half is C01's table.",
          "DESIGN.md §3 C16"),
  "C17": ("value flow of error fields into replies, sibling format agreement between writeResponse and toSMTPErr, who-may-call for ReadResponse",
-         "Pass-through of SMTPError fields and generic codes decided by value flow at every site; every reply line with an enhanced code carries it (what the client's parser assumes). Unusual message shapes at value level are not decided.",
+         "Pass-through of SMTPError fields and generic codes decided by value flow at every site; the first reply after a failed callback carries the callback's own error on every path; every reply line with an enhanced code carries it (what the client's parser assumes). Unusual message shapes at value level are not decided.",
          "DESIGN.md §3 C17"),
  "C18": ("lifecycle rule for Client.rcpts (who-may-write + cleared at a transaction boundary on all paths), affine loop shape of the LMTP reply loop, leaf-source flow of the per-recipient error",
          "Structural conditions for correct per-transaction attribution in the LMTP client decided on every path.",
@@ -32,13 +32,13 @@ CLAIMED = {
          "The configuration space is finite and consulted only through boolean tests, so the extracted table is the behaviour; compared on every assignment of the configuration atoms. Parameter gates agree with the flags. Capability line syntax beyond the constants and backend mechanism lists are not decided.",
          "DESIGN.md §3 C12"),
  "C13": ("shape rules on the status collector (SSA pattern + value flow), attribution of per-recipient replies, fill-before-signal path rules, non-blocking send rules",
-         "Structural conditions that make per-recipient attribution and deadlock-freedom possible, decided on every path and loop. Channel FIFO is language semantics; timing of backend status calls is not decided.",
+         "Structural conditions that make per-recipient attribution and deadlock-freedom possible, decided on every path and loop; the value filled in for recipients without a status is this delivery's outcome (received result, LMTPData's or Data's own return value). Channel FIFO is language semantics; timing of backend status calls is not decided.",
          "DESIGN.md §3 C13"),
  "C04": ("path counting of final-reply events on SSA with callee summaries; constant table of reply/enhanced codes; value flow of verdicts; capture rule for delivery goroutines",
          "Exactly one final reply on every path of the dispatcher and each handler (with the frozen, individually checked exceptions), every constant code/enhanced-code pair well-formed and class-consistent, reply line format by value flow, DATA/BDAT verdict only from this transaction's backend result, no transaction-scoped field re-read by the BDAT goroutine. Validity of echoed text and network write ordering are not decided.",
          "DESIGN.md §3 C04"),
  "C08": ("pairing and must-pass-through rules on SSA, loop typestate rule (close check before next dispatch), frozen go-statement table",
-         "Logout paired with clearing the session on all paths, sessions always stored, Close on every exit of handleConn, reply-then-close on QUIT/threshold/panic, no dispatch after a failed read, a branch on Close-written state between a closing dispatch and the next one. Goroutine termination depending on the backend is not decided.",
+         "Logout paired with clearing the session on all paths, sessions always stored, Close on every exit of handleConn, reply-then-close on QUIT/threshold/panic, no dispatch after a failed read, a branch on Close-written state between a closing dispatch and the next one; no backend callback runs under Conn.locker without a deferred unlock (a panicking callback must not block the recovery's Close). Goroutine termination depending on the backend is not decided.",
          "DESIGN.md §3 C08"),
  "C09": ("edge-feasibility guards, definition check of authAllowed, value flow of SASL octets (leaf sources through phis), path rules with one-step path sensitivity for the client cancel",
          "AUTH entry points unreachable when not allowed/greeted/already authenticated; didAuth set only after done+nil+235 and cleared only by the TLS upgrade; mechanism octets only from tested decodes; client uses StdEncoding both ways and cancels with '*' on every error path. Mechanism internals and TLS trusted.",
@@ -53,13 +53,13 @@ CLAIMED = {
          "End-of-data detection decided by the table for all streams; resynchronisation decided on every path: drain after each callback, limit lifted before the drain, goroutine joined after its drain, no line read during data, one reader per DATA.",
          "DESIGN.md §3 C02"),
  "C05": ("value flow of the chunk framing + path counting of consume events + edge-feasibility guards",
-         "Structural necessary conditions of BDAT framing on every path: chunk = LimitReader(c.text.R, parsed size), raw payload path, every sized path consumes the chunk (also refusals), one goroutine per message, accounting. Failed discards end the connection on every path. The read-ahead/line-limit clause is decided structurally and fails on this tree: recorded as a known finding (limiter below the buffered reader).",
+         "Structural necessary conditions of BDAT framing on every path: chunk = LimitReader(c.text.R, parsed size), raw payload path, every sized path consumes the chunk (also refusals), the dispatcher never answers a BDAT line itself, one goroutine per message, accounting. Failed discards end the connection on every path. The read-ahead/line-limit clause is decided structurally and fails on this tree: recorded as a known finding (limiter below the buffered reader).",
          "DESIGN.md §3 C05"),
  "C06": ("guards with exact thresholds by edge-feasibility under both polarities + must-summaries + value flow in Read",
          "Limit armed at construction, lifted only after the callback; budget cut/decrement/exhaustion in Read; SIZE and BDAT totals refused exactly when strictly greater than the limit with 552 and no callback. The DATA boundary at exactly N octets is decided by the budget rules (exhausted budget vs the octet beyond it); the handlers add no size verdict of their own (verdict-source rule); the reader's framing rules are shared so that an over-limit message still ends at its marker.",
          "DESIGN.md §3 C06"),
  "C07": ("automaton table for error/EOF results + guard facts with phi refinement for the clean pipe close + must-summaries for aborts",
-         "io.EOF only in the end state; read errors become non-EOF errors; clean pipe close only on LAST after a complete chunk (error nil and count == declared size); reset/Close abort an open pipe; handleConn closes on every exit.",
+         "io.EOF only in the end state; read errors become non-EOF errors; clean pipe close only on LAST after a complete chunk (error nil and count == declared size); reset/Close abort an open pipe before calling into the backend; an oversize chunk's 552 ends the transfer; handleConn closes on every exit.",
          "DESIGN.md §3 C07"),
  "C03": ("typestate guards by edge-feasibility on SSA + must/may event summaries + path rules",
          "Structural necessary conditions of the transaction typestate decided for every call site and path: callbacks unreachable under each out-of-order state, state advanced only on success edges, reset()/Close on every transaction end, no advancing event after a refusal. Not a proof of the behaviour over all histories.",
